@@ -7,7 +7,7 @@ Require Import QzParser.ParserModel QzParser.Props.C07.
 Open Scope Z_scope.
 
 Theorem C06_nft_total_parsed : forall (s : bytes) f z prev,
-  parse_trigger s = Ok f -> wf_zone z = true -> 0 <= prev <= max_nanos ->
+  parse_trigger s = Ok f -> wf_zone z = true -> min_nanos <= prev <= max_nanos ->
   next_fire_time_zone f z prev <> ModelError.
 Proof. intros s f z prev Hp. exact (C06_nft_total f z prev (parse_trigger_ok_wf s f Hp)). Qed.
 Print Assumptions C06_nft_total_parsed.
